@@ -120,16 +120,18 @@ Section Compile.
   Notation resolve := (resolve C t).
   Notation load_file := (load_file C H render_o yload t).
   Notation parse_file := (parse_file H yload).
-  Notation spec_load := (spec_load C render_o yload t).
+  Notation spec_load := (spec_load C H render_o yload t).
   Notation get_entry := (get_entry V C H render_o yload t).
   Notation pfile := (pfile V C H render_o yload t).
   Notation pfiles := (pfiles V C H render_o yload t).
-  Notation sfile := (sfile C render_o yload t).
-  Notation expand_spec := (expand_spec C render_o yload t).
+  Notation sfile := (sfile V C H render_o yload t).
+  Notation expand_spec := (expand_spec V C H render_o yload t).
   Notation after_version := (after_version V).
 
   Definition file_ok (n : name) (e : entry) : Prop := forall rn p, resolve n = Ok (rn, p) -> load_file p = Ok e.
-  Definition nc_ok (nc : files) : Prop := forall n e, flookup n nc = Some e -> file_ok n e.
+  (* content validity of a data-file entry: it is what some text parses to - no reference to any snapshot *)
+  Definition cfile_valid (e : entry) : Prop := exists text, parse_file text = Ok e.
+  Definition nc_ok (nc : files) : Prop := forall n e, flookup n nc = Some e -> file_ok n e /\ cfile_valid e.
   (* an old entry is harmless: whatever text hashes to its version parses to its data *)
   Definition oc_ok (oc : files) : Prop :=
     forall n e, flookup n oc = Some e -> forall text, H text = snd e -> parse_file text = Ok e.
@@ -146,7 +148,7 @@ Section Compile.
   Proof.
     intros Hnc Hoc Hr. unfold Target.get_entry. rewrite V_norerender.
     destruct (flookup n nc) as [e|] eqn:En.
-    - symmetry. exact (Hnc n e En rn p Hr).
+    - symmetry. exact (proj1 (Hnc n e En) rn p Hr).
     - unfold Target.load_file. destruct (wrap_rt (render_path C render_o t p)) as [text|x]; cbn [bind]; [|reflexivity].
       destruct (flookup n oc) as [e|] eqn:Eo; [|reflexivity].
       destruct (str_eqb (H text) (snd e)) eqn:Eh; [|reflexivity].
@@ -168,32 +170,32 @@ Section Compile.
   Lemma wrap_rt_ok {A} (r : res A) a : wrap_rt r = Ok a -> r = Ok a.
   Proof. destruct r; cbn; [congruence | discriminate]. Qed.
 
-  Lemma load_spec p : spec_load p = match load_file p with Ok e => Ok (norm3 (fst e)) | Err x => Err x end.
+  Lemma load_spec p : spec_load p = match load_file p with Ok e => Ok (norm3 (fst e), snd e) | Err x => Err x end.
   Proof.
     unfold Target.spec_load, Target.load_file, Target.parse_file.
     destruct (wrap_rt (render_path C render_o t p)) as [text|x]; cbn [bind]; [|reflexivity].
     destruct (wrap_rt (yload text)) as [d|x] eqn:Ey; cbn [bind]; [|reflexivity].
-    destruct d; try reflexivity. cbn [fst]. apply wrap_rt_ok in Ey. apply yload_wf in Ey.
+    destruct d; try reflexivity. cbn [fst snd]. apply wrap_rt_ok in Ey. apply yload_wf in Ey.
     now rewrite split_three_way.
   Qed.
 
-  Lemma opt_piece_fst b v : map fst (opt_piece b v) = some_piece (match b with Some x => x | None => [] end).
+  Lemma opt_piece_some b v : opt_piece b v = some_piece (match b with Some x => x | None => [] end) v.
   Proof. destruct b as [[|x r]|]; reflexivity. Qed.
 
   (* relation between a level of the model and the same level of the specification *)
   Definition level_rel (oc : files)
              (rm : list name -> list (res name) -> files -> res (list piece * files))
-             (rs : list name -> list (res name) -> res (list dict)) : Prop :=
+             (rs : list name -> list (res name) -> res (list piece)) : Prop :=
     forall parents fl nc, nc_ok nc ->
       match rm parents fl nc with
-      | Ok (pl, nc') => rs parents fl = Ok (map fst pl) /\ nc_ok nc' /\ Forall piece_ok pl
+      | Ok (pl, nc') => rs parents fl = Ok pl /\ nc_ok nc' /\ Forall piece_ok pl
       | Err e => rs parents fl = Err e
       end.
 
   Lemma pfile_rel oc rm rs : oc_ok oc -> level_rel oc rm rs ->
     forall parents n rn p nc, nc_ok nc -> resolve n = Ok (rn, p) ->
       match pfile rm oc parents (n, rn, p) nc with
-      | Ok (pl, nc') => sfile rs parents (n, rn, p) = Ok (map fst pl) /\ nc_ok nc' /\ Forall piece_ok pl
+      | Ok (pl, nc') => sfile rs parents (n, rn, p) = Ok pl /\ nc_ok nc' /\ Forall piece_ok pl
       | Err e => sfile rs parents (n, rn, p) = Err e
       end.
   Proof.
@@ -201,10 +203,12 @@ Section Compile.
     destruct (existsb (name_eqb n) parents); [reflexivity|].
     rewrite (get_entry_eq oc nc n rn p Hnc Hoc Hr), load_spec.
     destruct (load_file p) as [[[[b inc] a] v]|x] eqn:El; cbn [bind]; [|reflexivity].
-    cbn [norm3 fst].
+    cbn [norm3 fst snd].
     assert (Hnc1 : nc_ok ((n, (b, inc, a, v)) :: nc)).
     { intros n' e'. rewrite flookup_cons. destruct (name_eqb n' n) eqn:En.
-      - apply name_eqb_eq in En. subst n'. intros E. injection E as <-. intros rn' p' Hr'. rewrite Hr in Hr'. now injection Hr' as <- <-.
+      - apply name_eqb_eq in En. subst n'. intros E. injection E as <-. split.
+        + intros rn' p' Hr'. rewrite Hr in Hr'. now injection Hr' as <- <-.
+        + apply (load_file_parse _ _ El).
       - apply Hnc. }
     assert (Hv : exists text, parse_file text = Ok (b, inc, a, H text) /\ v = H text).
     { destruct (load_file_parse _ _ El) as [text Hp]. exists text. pose proof (parse_file_version _ _ Hp) as Ev. cbn [snd] in Ev. subst v. auto. }
@@ -220,14 +224,14 @@ Section Compile.
         specialize (Hrel (parents ++ [n]) (map Ok names) _ Hnc1).
         destruct (rm (parents ++ [n]) (map Ok names) _) as [[pl nc']|x]; cbn [bind fst snd].
         * destruct Hrel as (E1 & E2 & E3). rewrite E1. cbn [bind]. split; [|split; [assumption|]].
-          -- now rewrite !map_app, !opt_piece_fst.
+          -- now rewrite !opt_piece_some.
           -- apply Forall_app. split; [assumption|]. apply Forall_app. now split.
         * now rewrite Hrel.
       + cbn [bind fst snd]. split; [|split; [assumption|]].
-        * now rewrite !map_app, !opt_piece_fst.
+        * now rewrite !opt_piece_some.
         * apply Forall_app. split; [assumption|]. cbn [app]. assumption.
     - cbn [bind fst snd]. split; [|split; [assumption|]].
-      * now rewrite !map_app, !opt_piece_fst.
+      * now rewrite !opt_piece_some.
       * apply Forall_app. split; [assumption|]. cbn [app]. assumption.
   Qed.
 
@@ -246,19 +250,19 @@ Section Compile.
   Lemma pfile_list_rel oc rm rs : oc_ok oc -> level_rel oc rm rs ->
     forall parents qs nc, nc_ok nc -> Forall resolved qs ->
       match pfile_list (pfile rm oc) parents qs nc with
-      | Ok (pl, nc') => sfile_list (sfile rs) parents qs = Ok (map fst pl) /\ nc_ok nc' /\ Forall piece_ok pl
+      | Ok (pl, nc') => sfile_list (sfile rs) parents qs = Ok pl /\ nc_ok nc' /\ Forall piece_ok pl
       | Err e => sfile_list (sfile rs) parents qs = Err e
       end.
   Proof.
     intros Hoc Hrel parents qs. induction qs as [|[[n rn] p] r IH]; intros nc Hnc Hq; cbn [pfile_list sfile_list].
-    - repeat split; auto.
+    - split; [reflexivity | split; [assumption | constructor]].
     - inversion Hq as [|? ? Hq1 Hqr]; subst. unfold resolved in Hq1. cbn [fst snd] in Hq1.
       pose proof (pfile_rel oc rm rs Hoc Hrel parents n rn p nc Hnc Hq1) as P1.
       destruct (pfile rm oc parents (n, rn, p) nc) as [[pl1 nc1]|x]; cbn [bind fst snd].
       + destruct P1 as (E1 & N1 & F1). rewrite E1. cbn [bind].
         specialize (IH nc1 N1 Hqr).
         destruct (pfile_list (pfile rm oc) parents r nc1) as [[pl2 nc2]|x]; cbn [bind fst snd].
-        * destruct IH as (E2 & N2 & F2). rewrite E2. cbn [bind]. split; [now rewrite map_app | split; [assumption | now apply Forall_app]].
+        * destruct IH as (E2 & N2 & F2). rewrite E2. cbn [bind]. split; [reflexivity | split; [assumption | now apply Forall_app]].
         * now rewrite IH.
       + now rewrite P1.
   Qed.
@@ -278,8 +282,9 @@ Section Compile.
   (* ---- the whole of compile_data ---- *)
   Notation eval_top := (eval_top C matches).
   Notation spec_top := (spec_top C render_o yload matches t).
-  Notation spec_pieces := (spec_pieces C render_o yload matches t).
-  Notation get_data_spec := (get_data_spec C render_o yload matches t).
+  Notation spec_pieces := (spec_pieces V C H render_o yload matches t).
+  Notation get_data_spec := (get_data_spec V C H render_o yload matches t).
+  Notation get_full_spec := (get_full_spec V C H render_o yload matches t).
   Notation process_top := (process_top C H render_o yload matches t pv).
   Notation compile := (compile V C H render_o yload matches t pv).
   Notation top_version := (top_version H pv).
@@ -325,13 +330,61 @@ Section Compile.
   Qed.
 
   Definition spec_result : res dict :=
-    if empty_raises V && empty_pieces_case C render_o yload matches t then Err ValueError else get_data_spec.
+    if empty_raises V && empty_pieces_case V C H render_o yload matches t then Err ValueError else get_data_spec.
 
   Definition result_data (r : res (dict * str * option item)) : res dict :=
     match r with Ok (d, _, _) => Ok d | Err e => Err e end.
 
   Lemma merge_all_nil : merge_all [] = Ok [].
   Proof. reflexivity. Qed.
+
+  Definition spec_full : res (dict * str) :=
+    if empty_raises V && empty_pieces_case V C H render_o yload matches t then Err ValueError else get_full_spec.
+  Definition result_full (r : res (dict * str * option item)) : res (dict * str) :=
+    match r with Ok (d, v, _) => Ok (d, v) | Err e => Err e end.
+
+  (* data AND version of compile_data, for any usable old cache item *)
+  Theorem compile_full oc : item_ok oc -> result_full (compile oc) = spec_full.
+  Proof.
+    intros Hok. pose proof (process_top_spec oc Hok) as Pt. destruct Hok as (_ & Hoc & Hres).
+    unfold Target.compile, spec_full, Target.get_full_spec, Target.empty_pieces_case, Target.spec_pieces.
+    destruct (process_top oc) as [[fl tv]|x]; cbn [bind fst snd] in *; rewrite Pt; cbn [bind]; [|now rewrite andb_false_r].
+    assert (Fin : forall pl nc (P : Forall piece_ok pl),
+      result_full
+        (match i_result oc with
+         | Some (rd, rv) =>
+             if str_eqb rv (aggregate_version H (map snd pl)) then Ok (rd, rv, None)
+             else bind (merge_all (map fst pl)) (fun d =>
+                    Ok (d, aggregate_version H (map snd pl),
+                        Some {| i_top := Some (fl, tv); i_files := nc; i_result := Some (d, aggregate_version H (map snd pl)) |}))
+         | None =>
+             bind (merge_all (map fst pl)) (fun d =>
+               Ok (d, aggregate_version H (map snd pl),
+                   Some {| i_top := Some (fl, tv); i_files := nc; i_result := Some (d, aggregate_version H (map snd pl)) |}))
+         end) = bind (merge_all (map fst pl)) (fun d => Ok (d, aggregate_version H (map snd pl)))).
+    { intros pl nc P. destruct (i_result oc) as [[rd rv]|].
+      - destruct (str_eqb rv (aggregate_version H (map snd pl))) eqn:Ev.
+        + apply str_eqb_eq in Ev. cbn [result_full]. rewrite (Hres pl P (eq_sym Ev)). cbn [bind fst]. now rewrite Ev.
+        + destruct (merge_all (map fst pl)); reflexivity.
+      - destruct (merge_all (map fst pl)); reflexivity. }
+    destruct fl as [[|x r]|].
+    - cbn [bind fst snd]. rewrite andb_false_r. apply (Fin [] [] (Forall_nil _)).
+    - pose proof (pfiles_rel (i_files oc) Hoc (fuel_for t) [[s_topfile]] (map name_of_top_elem (x :: r)) [] nc_ok_nil) as R.
+      destruct (pfiles (fuel_for t) (i_files oc) [[s_topfile]] (map name_of_top_elem (x :: r)) []) as [[pl nc]|e]; cbn [bind fst snd].
+      + destruct R as (E1 & _ & P). rewrite E1.
+        destruct pl as [|q pl']; cbn [map].
+        * destruct (empty_raises V); cbn [andb bind result_full]; [reflexivity|]. apply (Fin [] nc (Forall_nil _)).
+        * rewrite andb_false_r. cbn [bind]. apply (Fin (q :: pl') nc P).
+      + rewrite R. now rewrite andb_false_r.
+    - cbn [bind fst snd]. rewrite andb_false_r. apply (Fin [] [] (Forall_nil _)).
+  Qed.
+
+  Lemma spec_full_data : match spec_full with Ok dv => Ok (fst dv) | Err e => Err e end = spec_result.
+  Proof.
+    unfold spec_full, spec_result, Target.get_full_spec, Target.get_data_spec.
+    destruct (empty_raises V && empty_pieces_case V C H render_o yload matches t); [reflexivity|].
+    destruct spec_pieces as [ps|e]; cbn [bind]; [|reflexivity]. destruct (merge_all (map fst ps)); reflexivity.
+  Qed.
 
   Theorem compile_spec oc : item_ok oc -> result_data (compile oc) = spec_result.
   Proof.
@@ -405,12 +458,14 @@ Proof.
 Qed.
 
 Section Terminates.
+  Variable V : variants.
   Variable C : config.
+  Variable H : str -> str.
   Variable render_o : str -> res str.
   Variable yload : str -> res val.
   Variable t : fstree.
   Notation resolve := (resolve C t).
-  Notation expand_spec := (expand_spec C render_o yload t).
+  Notation expand_spec := (expand_spec V C H render_o yload t).
 
   Definition yaml_path (n : name) : path := removelast n ++ [last n [] ++ suffix C].
   Definition init_path (n : name) : path := n ++ [s_init ++ suffix C].
@@ -515,12 +570,12 @@ Section Terminates.
           destruct (resolve_all C t r) as [r'|x]; cbn [bind] in Er; [|discriminate].
           injection Er as <-. constructor; [now exists rn', p | now apply IHf]. }
       clear Er Ra. induction Hq as [|[[n rn] p] qs' Hq1 _ IHq]; cbn [sfile_list]; [discriminate|].
-      assert (S1 : noof (sfile C render_o yload t (expand_spec f) (m :: rest) (n, rn, p))).
+      assert (S1 : noof (sfile V C H render_o yload t (expand_spec f) (m :: rest) (n, rn, p))).
       { unfold Target.sfile. destruct (existsb (name_eqb n) (m :: rest)) eqn:Ex; [discriminate|].
         unfold Target.spec_load.
         destruct (render_path C render_o t p) as [text|x]; cbn [wrap_rt bind]; [|discriminate].
         destruct (yload text) as [d|x] eqn:Ey; cbn [wrap_rt bind]; [|discriminate].
-        - destruct d; try discriminate. cbn [bind]. destruct (split_spec d) as [[b inc] a].
+        - destruct d; try discriminate. cbn [bind]. destruct (split_spec d) as [[b inc] a]. cbn [bind].
           assert (M : noof (match inc with
                             | Some iv => if truthy iv then
                                 bind (iter_val iv) (fun items => bind (map_res (resolve_rel rn) items) (fun names =>
@@ -540,8 +595,8 @@ Section Terminates.
               + rewrite app_length. cbn [length] in *. lia.
             - destruct iv; cbn in Ei; congruence. }
           destruct (match inc with Some iv => _ | None => _ end); cbn [bind]; [discriminate | carry M]. }
-      destruct (sfile C render_o yload t (expand_spec f) (m :: rest) (n, rn, p)); cbn [bind]; [|carry S1].
-      destruct (sfile_list (sfile C render_o yload t (expand_spec f)) (m :: rest) qs'); cbn [bind]; [discriminate | carry IHq].
+      destruct (sfile V C H render_o yload t (expand_spec f) (m :: rest) (n, rn, p)); cbn [bind]; [|carry S1].
+      destruct (sfile_list (sfile V C H render_o yload t (expand_spec f)) (m :: rest) qs'); cbn [bind]; [discriminate | carry IHq].
   Qed.
 End Terminates.
 
